@@ -31,6 +31,11 @@ def run(ctx, prop):
         m = ctx.tlc("tasklane", "TaskLaneMC", mut + ".cfg", workers=8, timeout=900, count=False, tag="mutant " + mut)
         if not m.violated:
             raise vlib.Infra("vacuity: spec mutant %s violates nothing" % mut)
+    if not q and prop in ("C06", "C07"):
+        # unbounded: AtMostOnce, NoRejectedRun, StartedOnlyIfPushed, PostCancelReject, WaitOnlyWhenQuiet for ANY N, Q, tasks and
+        # producers - the inductive invariant of proofs/tasklane checked by the TLA+ proof system (about 2 minutes)
+        import p_p01
+        ctx.tlaps("tasklane", p_p01.TASKLANE_PROOF, timeout=2400, tag="TaskLaneProof (unbounded safety of the protocol model)")
     # 2. binding: traces of the real TaskLane, judged with the statement layer
     race = prop == "C14"
     hb = ctx.build("tasklane", race=race)
